@@ -6,12 +6,15 @@ REL = 'crates/grafeo-core/src/index/adjacency.rs'
 
 
 def build(repo):
-    u = KaniUnit('adjacency', ['C14'], 'grafeo-core', cargo_args=['--no-default-features'], copy_crates=['grafeo-common', 'grafeo-core'])
+    u = KaniUnit('adjacency', ['C14', 'C15'], 'grafeo-core', cargo_args=['--no-default-features'], copy_crates=['grafeo-common', 'grafeo-core'])
     u.module = 'index::adjacency::verif_adjacency'
     u.append(REL, open(os.path.join(os.path.dirname(os.path.dirname(os.path.abspath(__file__))), 'kani', 'adjacency.rs')).read())
-    u.harness('chunk_compress_roundtrip', 'adjacency::AdjacencyChunk::compress/CompressedAdjacencyChunk::iter::same_multiset[len<=3]', kind='bounded', bound='chunk of <= 3 entries, all u64 payloads', timeout=1200)
-    u.harness('list_add_compact_delete_iter', 'adjacency::AdjacencyList::iter/degree::exactly_the_live_entries[edges<=4,capacity in {1,2}]', kind='bounded',
-              bound='<= 4 edges, chunk capacity 1 or 2, compaction after any add, at most one deletion', timeout=1800)
+    for n in (1, 2, 3):
+        u.harness('chunk_compress_roundtrip_len%d' % n, 'adjacency::AdjacencyChunk::compress/CompressedAdjacencyChunk::iter::same_multiset[len=%d]' % n, kind='bounded',
+                  bound='chunk of exactly %d entries, all u64 payloads' % n, timeout=1200, props=['C15', 'C14'], tier='quick' if n < 3 else 'thorough')
+    for n, cap in ((2, 1), (3, 2)):
+        u.harness('list_ops_n%d_cap%d' % (n, cap), 'adjacency::AdjacencyList::iter/degree::exactly_the_live_entries[edges=%d,capacity=%d]' % (n, cap), kind='bounded',
+                  bound='%d edges, chunk capacity %d, compaction after any add, at most one deletion' % (n, cap), timeout=1500, props=['C14'], tier='quick' if n == 2 else 'thorough')
     u.functions = [('AdjacencyChunk::{new, push, len, is_full, iter, compress}, CompressedAdjacencyChunk::{len, iter}, AdjacencyList::{new, add_edge, mark_deleted, compact, maybe_compress_to_cold, iter, degree}', REL)]
     u.assumptions = ['BOUNDED: see each harness; with <= 4 edges and COLD_COMPRESSION_THRESHOLD = 4 the hot -> cold migration inside AdjacencyList is not reached (the chunk round trip harness covers compress/iter on their own)']
     u.not_covered = ['ChunkedAdjacency (RwLock<FxHashMap>: parking_lot is outside Kani), edge / deleted counters, freeze_all, larger lists']
